@@ -492,6 +492,13 @@ def _dedupe_stream(sc):
     sc['faults'] = out
 
 
+def _mass_hold(rng, n):
+    """[state, victim, scheduling points to skip] for a held mass cancel: the
+    controller's loop takes its own lock first and then each coordinator's."""
+    return [rng.choice(['inflight', 'inflight', 'running', 'done']),
+            rng.randrange(n), rng.randint(0, 2 * n + 1)]
+
+
 def add_cancel_script(rng, sc, how=None, allow_ctrlc=True):
     n = len(sc['transfers'])
     est = est_steps(sc['transfers'], sc['config'])
@@ -511,6 +518,7 @@ def add_cancel_script(rng, sc, how=None, allow_ctrlc=True):
         act = ['cancel', victim, atomic]
         if not atomic and rng.random() < 0.6:
             act.append(rng.choice(['inflight', 'inflight', 'running', 'done']))
+            act.append(rng.choice([0, 0, 0, 1, 2]))     # scheduling points to skip first
             if rng.random() < 0.5:
                 step = rng.randint(0, 12)      # cancel early: often still not started
         sc['driver'] = pre + [['wait_step', step], act] + \
@@ -519,12 +527,22 @@ def add_cancel_script(rng, sc, how=None, allow_ctrlc=True):
         kw = {'cancel': True}
         if rng.random() < 0.8:
             kw['cancel_msg'] = msg
+        act = ['shutdown', kw, atomic]
+        if not atomic and rng.random() < 0.5:
+            act.append(_mass_hold(rng, n))
+            if rng.random() < 0.5:
+                step = rng.randint(0, 12)
         sc['driver'] = [['submit', i] for i in range(n)] + \
-            [['wait_step', step], ['shutdown', kw, atomic]] + results
+            [['wait_step', step], act] + results
     elif how == 'with':
         kind = rng.choice(['exc', 'exc', 'kbi'])
+        act = ['with_raise', kind, msg, atomic]
+        if not atomic and rng.random() < 0.5:
+            act.append(_mass_hold(rng, n))
+            if rng.random() < 0.5:
+                step = rng.randint(0, 12)
         sc['driver'] = [['submit', i] for i in range(n)] + \
-            [['wait_step', step], ['with_raise', kind, msg, atomic]]
+            [['wait_step', step], act]
     elif how == 'ctrlc_result':
         sc['driver'] = [['use_with']] + [['submit', i] for i in range(n)] + \
             [['interrupt_at', step]] + results
@@ -684,14 +702,22 @@ def contention(rng, kind=None):
 
 
 def gen_C10(rng):
-    if rng.random() < 0.35:
+    """The limits hold - and a full stage makes the submitter wait, never fail -
+    also for the tasks of transfers that failed or were cancelled part-way."""
+    r = rng.random()
+    if r < 0.3:
         sc = contention(rng)
         sc['knobs']['latency'] = wchoice(rng, [('none', 3), ('random', 3), ('slow_first', 2)])
+        return _maybe_disturb(rng, sc)
+    if r < 0.45:
+        sc = io_pressure(rng)
+        if rng.random() < 0.5:
+            sc.pop('driver', None)      # plain submit / result / shutdown
         return sc
     sc = base(rng, ALL_TYPES, nmax=6, tight=True, short_reads=True, maxsize=36)
     sc['knobs']['latency'] = wchoice(rng, [('none', 3), ('random', 4), ('slow_first', 2),
                                            ('slow_last', 1)])
-    return sc
+    return _maybe_disturb(rng, sc)
 
 
 def gen_C11(rng):
